@@ -270,3 +270,149 @@ Proof.
   intros H. destruct (lex d) as [ts es] eqn:E. cbn [fst] in H.
   apply (parse_keeps has_text ts f H). eapply lex_has_text; eauto.
 Qed.
+
+(* ---- a scalar parameter type token is spelled as one of the eight scalar types ---- *)
+Definition scalar_literals : list str :=
+  [lit "bool"; lit "string"; lit "int"; lit "uint"; lit "double"; lit "duration"; lit "timestamp"; lit "ipaddress"].
+Definition scalar_tok (t : tok) : Prop := tk t = CONDITION_PARAM_TYPE -> In (ttext t) scalar_literals.
+
+Lemma best_rule_from rules s : forall bk bn k n,
+  best_rule rules s bk bn = (k, n) -> (k, n) = (bk, bn) \/ exists f, In (k, f) rules /\ f s = n.
+Proof.
+  induction rules as [|[k0 f0] rules IH]; intros bk bn k n H; cbn [best_rule] in H; [left; congruence|].
+  destruct (bn <? f0 s)%nat.
+  - destruct (IH _ _ _ _ H) as [E|[f [Hin Hf]]]; [right; exists f0; inversion E; subst; split; [left; reflexivity|reflexivity]|right; exists f; split; [right; exact Hin|exact Hf]].
+  - destruct (IH _ _ _ _ H) as [E|[f [Hin Hf]]]; [left; exact E|right; exists f; split; [right; exact Hin|exact Hf]].
+Qed.
+
+Lemma is_prefix_firstn l : forall s, is_prefix l s = true -> firstn (length l) s = l.
+Proof.
+  induction l as [|c l IH]; intros s H; [reflexivity|]. destruct s as [|d s]; [discriminate|]. cbn [is_prefix] in H.
+  apply andb_prop in H. destruct H as [H1 H2]. apply N.eqb_eq in H1. subst. cbn. f_equal. apply IH. exact H2.
+Qed.
+
+Lemma default_rules_no_param_type : forallb (fun r : rule => negb (tk_eqb (fst r) CONDITION_PARAM_TYPE)) default_rules = true.
+Proof. vm_compute. reflexivity. Qed.
+
+Lemma condition_rules_param_type k f : In (k, f) condition_rules -> k = CONDITION_PARAM_TYPE ->
+  exists l, In l scalar_literals /\ f = rec_literal l.
+Proof.
+  unfold condition_rules. intros H Hk. cbn [In] in H.
+  repeat (destruct H as [H|H]; [inversion H; subst; try discriminate; try (eexists; split; [|reflexivity]; cbn; tauto)|]).
+  all: try contradiction.
+Qed.
+
+Lemma lex_loop_scalar fuel : forall s depth line col ts es,
+  lex_loop fuel s depth line col = (ts, es) -> Forall scalar_tok ts.
+Proof.
+  induction fuel as [|f IH]; intros s depth line col ts es H; cbn [lex_loop] in H; [inversion H; constructor|].
+  destruct s as [|c r]; [inversion H; constructor|].
+  destruct (best_rule (if (depth =? 0)%nat then default_rules else condition_rules) (c :: r) TEOF 0) as [k n] eqn:Eb.
+  destruct (n =? 0)%nat eqn:En.
+  - destruct (advance [c] line col) as [l' c']. destruct (lex_loop f r depth l' c') as [ts1 es1] eqn:E1.
+    inversion H; subst. eapply IH; eauto.
+  - destruct (advance (firstn n (c :: r)) line col) as [l' c'].
+    match type of H with context [lex_loop f ?s' ?d' l' c'] => destruct (lex_loop f s' d' l' c') as [ts1 es1] eqn:E1 end.
+    inversion H; subst. constructor; [|eapply IH; eauto].
+    unfold scalar_tok. cbn [tk ttext]. intros Hk. subst k.
+    apply best_rule_from in Eb. destruct Eb as [E|[g [Hin Hg]]]; [inversion E; subst; discriminate En|].
+    destruct (depth =? 0)%nat.
+    + exfalso. pose proof default_rules_no_param_type as Hd. rewrite forallb_forall in Hd. specialize (Hd _ Hin). cbn in Hd. discriminate Hd.
+    + destruct (condition_rules_param_type _ _ Hin eq_refl) as [l [Hl ->]]. unfold rec_literal in Hg.
+      destruct (is_prefix l (c :: r)) eqn:Ep; [|subst n; discriminate En]. subst n. rewrite (is_prefix_firstn l _ Ep). exact Hl.
+Qed.
+
+Theorem lex_scalar s ts es : lex s = (ts, es) -> Forall scalar_tok ts.
+Proof.
+  unfold lex, lex_all. destruct (lex_loop (S (length s)) s 0 1 0) as [ts0 es0] eqn:E. intros H; inversion H; subst.
+  apply lex_loop_scalar in E. apply Forall_forall. rewrite Forall_forall in E. intros t Ht. apply filter_In in Ht. apply E. tauto.
+Qed.
+
+(* ---- and the parser takes parameter types from its input ---- *)
+Section KeepsConds.
+  Variable Q : tok -> Prop.
+  Notation good := (Forall Q).
+
+  Lemma good_p_param ts x r : p_param ts = Some (x, r) -> good ts ->
+    Q (pd_type x) /\ tk (pd_type x) = CONDITION_PARAM_TYPE /\ good r.
+  Proof.
+    unfold p_param. intros H G.
+    destruct (expect IDENTIFIER (skip_opt NEWLINE ts)) as [[nm r0]|] eqn:E0; [|discriminate].
+    destruct (good_expect Q _ _ _ _ E0 (good_skip_opt Q _ _ G)) as [_ G0].
+    destruct (expect COLON (skip_opt WHITESPACE r0)) as [[c1 r1]|] eqn:E1; [|discriminate].
+    destruct (good_expect Q _ _ _ _ E1 (good_skip_opt Q _ _ G0)) as [_ G1].
+    assert (G1' := good_skip_opt Q WHITESPACE _ G1).
+    assert (Hkind : forall k ts0 t r', expect k ts0 = Some (t, r') -> tk t = k).
+    { intros k ts0 t r' He. destruct ts0 as [|t0 r0']; [discriminate|]. cbn in He. destruct (tk_eqb (tk t0) k) eqn:Ek; [|discriminate].
+      inversion He; subst. unfold tk_eqb in Ek. apply N.eqb_eq in Ek. destruct (tk t), k; try discriminate Ek; reflexivity. }
+    destruct (is_tk CONDITION_PARAM_CONTAINER (skip_opt WHITESPACE r1)).
+    - destruct (expect CONDITION_PARAM_CONTAINER (skip_opt WHITESPACE r1)) as [[c2 r2]|] eqn:E2; [|discriminate].
+      destruct (good_expect Q _ _ _ _ E2 G1') as [_ G2].
+      destruct (expect LESS r2) as [[c3 r3]|] eqn:E3; [|discriminate]. destruct (good_expect Q _ _ _ _ E3 G2) as [_ G3].
+      destruct (expect CONDITION_PARAM_TYPE r3) as [[t r4]|] eqn:E4; [|discriminate]. destruct (good_expect Q _ _ _ _ E4 G3) as [Qt G4].
+      destruct (expect GREATER r4) as [[c5 r5]|] eqn:E5; [|discriminate]. destruct (good_expect Q _ _ _ _ E5 G4) as [_ G5].
+      inversion H; subst. cbn [pd_type]. split; [exact Qt|]. split; [apply (Hkind _ _ _ _ E4)|exact G5].
+    - destruct (expect CONDITION_PARAM_TYPE (skip_opt WHITESPACE r1)) as [[t r2]|] eqn:E2; [|discriminate].
+      destruct (good_expect Q _ _ _ _ E2 G1') as [Qt G2]. inversion H; subst. cbn [pd_type]. split; [exact Qt|]. split; [apply (Hkind _ _ _ _ E2)|exact G2].
+  Qed.
+
+  Definition param_ok (p : pdecl) : Prop := Q (pd_type p) /\ tk (pd_type p) = CONDITION_PARAM_TYPE.
+
+  Lemma good_p_params_more fuel : forall ts x r, p_params_more fuel ts = Some (x, r) -> good ts -> Forall param_ok x /\ good r.
+  Proof.
+    induction fuel as [|f IH]; intros ts x r H G; [discriminate|]. cbn [p_params_more] in H. destruct (is_tk COMMA ts).
+    - destruct (p_param (skip_opt WHITESPACE (tl ts))) as [[p0 ts0]|] eqn:E0; [|discriminate].
+      destruct (good_p_param _ _ _ E0 (good_skip_opt Q _ _ (good_tl Q _ G))) as (Q0 & K0 & G0).
+      destruct (p_params_more f (skip_opt WHITESPACE ts0)) as [[ps ts1]|] eqn:E1; [|discriminate].
+      destruct (IH _ _ _ E1 (good_skip_opt Q _ _ G0)) as [Qs G1]. inversion H; subst. split; [constructor; [split; assumption|exact Qs]|exact G1].
+    - inversion H; subst. split; [constructor|exact G].
+  Qed.
+
+  Lemma good_take_expr ts : good ts -> good (snd (take_expr ts)).
+  Proof.
+    induction ts as [|t r IH]; intros G; [constructor|]. cbn [take_expr]. destruct (tk_eqb (tk t) RBRACE); [exact G|].
+    inversion G; subst. destruct (take_expr r) as [e r'] eqn:E. cbn [snd] in *. apply IH. assumption.
+  Qed.
+
+  Lemma good_p_condition ts x r : p_condition ts = Some (x, r) -> good ts -> Forall param_ok (cd_params x) /\ good r.
+  Proof.
+    unfold p_condition. intros H G. destruct (lead_in ts) as [r0|] eqn:E0; [|discriminate]. cbn [option_map fst] in H.
+    assert (G0 := good_lead_in Q _ _ E0 G).
+    destruct (expect CONDITION r0) as [[t1 r1]|] eqn:E1; [|discriminate]. destruct (good_expect Q _ _ _ _ E1 G0) as [_ G1].
+    destruct (expect WHITESPACE r1) as [[t2 r2]|] eqn:E2; [|discriminate]. destruct (good_expect Q _ _ _ _ E2 G1) as [_ G2].
+    destruct (expect IDENTIFIER r2) as [[nm r3]|] eqn:E3; [|discriminate]. destruct (good_expect Q _ _ _ _ E3 G2) as [_ G3].
+    destruct (expect LPAREN (skip_opt WHITESPACE r3)) as [[t4 r4]|] eqn:E4; [|discriminate].
+    destruct (good_expect Q _ _ _ _ E4 (good_skip_opt Q _ _ G3)) as [_ G4].
+    destruct (p_param (skip_opt WHITESPACE r4)) as [[p r5]|] eqn:E5; [|discriminate].
+    destruct (good_p_param _ _ _ E5 (good_skip_opt Q _ _ G4)) as (Qp & Kp & G5).
+    destruct (p_params_more (S (length r5)) (skip_opt WHITESPACE r5)) as [[ps r6]|] eqn:E6; [|discriminate].
+    destruct (good_p_params_more _ _ _ _ E6 (good_skip_opt Q _ _ G5)) as [Qps G6].
+    destruct (expect RPAREN (skip_opt NEWLINE r6)) as [[t7 r7]|] eqn:E7; [|discriminate].
+    destruct (good_expect Q _ _ _ _ E7 (good_skip_opt Q _ _ G6)) as [_ G7].
+    destruct (expect LBRACE (skip_opt WHITESPACE r7)) as [[t8 r8]|] eqn:E8; [|discriminate].
+    destruct (good_expect Q _ _ _ _ E8 (good_skip_opt Q _ _ G7)) as [_ G8].
+    assert (G9 := good_take_expr _ (good_skip_opt Q WHITESPACE _ (good_skip_opt Q NEWLINE _ G8))).
+    destruct (take_expr (skip_opt WHITESPACE (skip_opt NEWLINE r8))) as [e r9]. cbn [snd] in G9.
+    destruct (expect RBRACE r9) as [[t10 r10]|] eqn:E10; [|discriminate]. destruct (good_expect Q _ _ _ _ E10 G9) as [_ G10].
+    inversion H; subst. cbn [cd_params]. split; [constructor; [split; assumption|exact Qps]|exact G10].
+  Qed.
+
+  Lemma good_p_conditions fuel : forall ts x r, p_conditions fuel ts = Some (x, r) -> good ts ->
+    Forall (fun c => Forall param_ok (cd_params c)) x.
+  Proof.
+    induction fuel as [|f IH]; intros ts x r H G; [discriminate|]. cbn [p_conditions] in H. destruct (starts_with [CONDITION] ts).
+    - destruct (p_condition ts) as [[c0 ts0]|] eqn:E0; [|discriminate]. destruct (good_p_condition _ _ _ E0 G) as [Q0 G0].
+      destruct (p_conditions f ts0) as [[cs ts1]|] eqn:E1; [|discriminate]. inversion H; subst. constructor; [exact Q0|eapply IH; eauto].
+    - inversion H; subst. constructor.
+  Qed.
+
+  Theorem parse_keeps_params ts f : parse ts = Some f -> good ts -> Forall (fun c => Forall param_ok (cd_params c)) (f_conds f).
+  Proof.
+    unfold parse. intros H G. assert (G0 := good_skip_opt Q NEWLINE _ (good_skip_opt Q WHITESPACE _ G)).
+    destruct (p_header (skip_opt NEWLINE (skip_opt WHITESPACE ts))) as [[h r0]|] eqn:E0; [|discriminate].
+    destruct (good_p_header Q _ _ _ E0 G0) as [_ G1].
+    destruct (p_typedefs (S (length r0)) r0) as [[tds r1]|] eqn:E1; [|discriminate]. destruct (good_p_typedefs Q _ _ _ _ E1 G1) as [_ G2].
+    destruct (p_conditions (S (length r1)) r1) as [[cs r2]|] eqn:E2; [|discriminate].
+    destruct (skip_opt NEWLINE r2); [|discriminate]. inversion H; subst. cbn. eapply good_p_conditions; eauto.
+  Qed.
+End KeepsConds.
